@@ -209,6 +209,9 @@ def run(facts, rep, ctx):
         for pp in ps:
             err = is_err_term(pp.ret)
             langs = lang_set(facts, pp, lang_param)
+            if pp.end == "loop":
+                shape_unknown = "the localizer contains a loop (table lookup?) that this rule does not evaluate"
+                continue
             if pp.end != "ret":
                 shape_bad = "a path ends with %s" % pp.end
                 continue
@@ -286,7 +289,7 @@ def run(facts, rep, ctx):
         for lang in LANGS:
             got = cells.get(lang, set())
             want = TABLE[game][lang]
-            if shape_unknown and not shape_bad and got != {want}:
+            if shape_unknown and got != {want}:
                 rep.inconc(R1, "%s / %s: marker not extracted (%s)" % (game, lang, shape_unknown))
                 continue
             if got == {want}:
@@ -309,6 +312,8 @@ def run(facts, rep, ctx):
         row = TABLE[game]
         style_dir = game in ("FE13", "FE14", "FE15")
         for lang in LANGS:
+            if shape_unknown:
+                break
             for m in cells.get(lang, ()):
                 if m.startswith("Err"):
                     continue
